@@ -211,7 +211,9 @@ func runB(c BCase) (fs []failure, inconc string, facts map[string]bool, evals in
 	judge := func(p1 bpos, k int) {
 		tag := fmt.Sprintf("format switch %s -> %s (units %d, frontier flushed %v, resync %v), target died after request %d of %d", c.From, c.To, c.Units, c.LingerMs >= 100, c.Resync, k, R)
 		switch {
-		case p1.Err != nil && c.Units == 0 && strings.Contains(p1.Err.Error(), "no bisync authoritative migration seed found"):
+		case p1.Err != nil && (c.Units == 0 || c.Resync) && strings.Contains(p1.Err.Error(), "no bisync authoritative migration seed found"):
+			// (after a full resynchronisation the namespace holds nothing but the root checkpoint either: its completion drops the journal
+			// and the frontier, which describe units that lie before the snapshot)
 			// known finding: a namespace that holds nothing but the root checkpoint (full sync done, no unit committed yet) cannot be migrated
 			fs = append(fs, failure{"start-fails-after-format-switch:only-root-checkpoint", fmt.Sprintf("%s: the next start fails on a healthy target: %v", tag, p1.Err)})
 		case p1.Err != nil:
